@@ -61,7 +61,9 @@ Has(b, n) == \E i \in 1..Len(b) : b[i].name = n
 Get(b, n) == b[CHOOSE i \in 1..Len(b) : b[i].name = n].val
 Bind(b, n, v) == Append(b, [name |-> n, val |-> v])
 
-KindOK(kind, s) == IF kind = "ident" THEN s.k = "Ident" ELSE s.k \in ExprKinds
+\* an 'expression' metavariable stands for a Go expression: 'key: value' and the '...T' of a variadic parameter
+\* are nodes of go/ast's expression interface, but no expressions
+KindOK(kind, s) == IF kind = "ident" THEN s.k = "Ident" ELSE s.k \in ExprKinds \ {"KeyValueExpr", "Ellipsis"}
 
 \* --------------------------------------------- matching (P and I layers) --
 \* greedy = FALSE: P.  A pattern list matches iff SOME choice of runs makes
